@@ -71,8 +71,9 @@ type rCfg struct {
 	Rendezvous      bool   `json:"rendezvous"`
 	StageEndDelayAt int    `json:"stage_end_delay_at"` // file mode: the stage loop is held for stage_end_delay_us when this stage (1-based) ends
 	StageEndDelayUs int64  `json:"stage_end_delay_us"`
-	UIntervalUs     int64  `json:"uinterval_us"` // scripted configured-rate function: the interval it is configured for (0 = not scripted)
-	StallEval       int    `json:"stall_eval"`   // the trigger goroutine is held for stall_us right after this evaluation (1-based; 0 = never)
+	CancelAtEval    int    `json:"cancel_at_eval"` // file mode: the caller cancels right after this rate evaluation (1-based), while the trigger goroutine is still busy with it for stall_us
+	UIntervalUs     int64  `json:"uinterval_us"`   // scripted configured-rate function: the interval it is configured for (0 = not scripted)
+	StallEval       int    `json:"stall_eval"`     // the trigger goroutine is held for stall_us right after this evaluation (1-based; 0 = never)
 	StallUs         int64  `json:"stall_us"`
 	MetricsRuns     int    `json:"metrics_runs"`
 	RunIndex        int    `json:"run_index"`
@@ -100,6 +101,7 @@ type rCase struct {
 	mixNames       bool   // consecutive runs on one metrics instance use different scenario names
 	scnName        string // scenario name of this run ("" = scn)
 	failSetupOnRun int    // consecutive runs on one metrics instance: the setup of this run (1-based) fails
+	asyncFail      bool   // light runs: a goroutine of the scenario marks the iteration failed just as its body returns
 	helperEvery    int    // every helperEvery-th body works in a helper goroutine guarded by testing.CheckResults(t, done) that panics
 	failEarly      bool   // planned failures are marked at the START of the body (the flag must survive until the body ends)
 	panicEvery     int
@@ -122,9 +124,12 @@ type rRec struct {
 	stageIdx        int
 	stageEnv        []string
 	stopDelay       time.Duration
+	endMsgUs        atomic.Int64 // when the run said why triggering stopped (0 = not yet)
 	firstStageUs    atomic.Int64 // when the first stage of a file-mode run began (0 = not yet)
 	stageEndDelayAt int
 	stageEndDelayUs int64
+	cancelAtEval    int
+	cancelFn        func()
 	stallEval       int
 	stallUs         int64
 	nEval           atomic.Int64
@@ -172,8 +177,30 @@ func (r *rRec) hook(point string, who any, n int64) {
 		}
 	case "iw.eval":
 		r.add(rEv{K: "eval", A: n, C: r.us()})
-		if k := r.nEval.Add(1); r.stallEval > 0 && int(k) == r.stallEval {
+		k := r.nEval.Add(1)
+		if r.stallEval > 0 && int(k) == r.stallEval {
 			time.Sleep(time.Duration(r.stallUs) * time.Microsecond) // schedule control: the trigger goroutine is starved here
+		}
+		if r.cancelAtEval > 0 && int(k) == r.cancelAtEval && r.cancelFn != nil {
+			// the caller cancels while this goroutine is still busy with its evaluation; what it finds in the environment
+			// afterwards is what a slow rate function or its request would find
+			r.add(rEv{K: "cancel", C: r.us()})
+			r.cancelFn()
+			r.add(rEv{K: "cancelret", C: r.us()})
+			time.Sleep(time.Duration(r.stallUs) * time.Microsecond)
+			var env []string
+			for _, key := range r.envKeys {
+				if v, ok := os.LookupEnv(key); ok {
+					env = append(env, key+"="+v)
+				}
+			}
+			r.mu.Lock()
+			want := ""
+			if r.stageIdx >= 1 && r.stageIdx <= len(r.stageEnv) {
+				want = r.stageEnv[r.stageIdx-1]
+			}
+			r.ev = append(r.ev, rEv{K: "evalenv", A: int64(r.stageIdx), C: r.us(), S: strings.Join(env, ";"), S2: want})
+			r.mu.Unlock()
 		}
 	case "tp.stop.flagged":
 		r.mu.Lock()
@@ -261,12 +288,20 @@ func (h *rHandler) Handle(_ context.Context, rc slog.Record) error {
 		}
 		switch {
 		case strings.Contains(rc.Message, "not completed after"):
-			h.rec.add(rEv{K: "timeoutmsg", C: h.rec.us()})
+			// d = microseconds since the run announced that triggering had stopped (-1: it never did)
+			since := int64(-1)
+			if t := h.rec.endMsgUs.Load(); t > 0 {
+				since = h.rec.us() - t
+			}
+			h.rec.add(rEv{K: "timeoutmsg", C: h.rec.us(), D: since})
 		case strings.HasPrefix(rc.Message, "Max Duration Elapsed"):
+			h.rec.endMsgUs.CompareAndSwap(0, h.rec.us()+1)
 			h.rec.add(rEv{K: "endmsg", S: "maxdur", C: h.rec.us()})
 		case strings.HasPrefix(rc.Message, "Max Iterations Reached"):
+			h.rec.endMsgUs.CompareAndSwap(0, h.rec.us()+1)
 			h.rec.add(rEv{K: "endmsg", S: "maxiter", C: h.rec.us()})
 		case strings.HasPrefix(rc.Message, "Interrupted"):
+			h.rec.endMsgUs.CompareAndSwap(0, h.rec.us()+1)
 			h.rec.add(rEv{K: "endmsg", S: "interrupt", C: h.rec.us()})
 		}
 		return nil
@@ -334,7 +369,8 @@ func runOne(c *ctx, rc rCase, m *metrics.Metrics) rTrace {
 	tr := rTrace{Cfg: rc.cfg}
 	rec := &rRec{t0: time.Now(), stopG: map[int64]bool{}, envKeys: rc.envKeys, stageEnv: rc.stageEnv,
 		stopDelay: time.Duration(rc.cfg.StopDelayUs) * time.Microsecond, wedge: rc.cfg.Wedge, atSummary: make(chan struct{}),
-		stallEval: rc.cfg.StallEval, stallUs: rc.cfg.StallUs, stageEndDelayAt: rc.cfg.StageEndDelayAt, stageEndDelayUs: rc.cfg.StageEndDelayUs}
+		stallEval: rc.cfg.StallEval, stallUs: rc.cfg.StallUs, stageEndDelayAt: rc.cfg.StageEndDelayAt, stageEndDelayUs: rc.cfg.StageEndDelayUs,
+		cancelAtEval: rc.cfg.CancelAtEval}
 	verifhook.Install(rec.hook)
 	defer verifhook.Install(nil)
 	curRec.Store(rec)
@@ -398,6 +434,13 @@ func runOne(c *ctx, rc rCase, m *metrics.Metrics) rTrace {
 				}
 				if rec.returned.Load() {
 					rec.afterS.Add(1)
+				}
+				if rc.asyncFail && id%2 == 0 {
+					// an asynchronous checker reports its verdict as the body hands over: whether this iteration ends up
+					// failed or not is a race the scenario accepts - but every report of it must tell the same story
+					sig := make(chan struct{})
+					go func() { <-sig; t.Fail() }()
+					close(sig)
 				}
 			}
 		}
@@ -498,6 +541,7 @@ func runOne(c *ctx, rc rCase, m *metrics.Metrics) rTrace {
 		WaitTimeout: time.Duration(rc.cfg.WaitUs) * time.Microsecond, Metrics: m, Output: out, Opts: rc.opts}
 	ctxRun, cancel := context.WithCancel(context.Background())
 	defer cancel()
+	rec.cancelFn = cancel
 	if rc.cfg.CancelUs > 0 {
 		go func() {
 			time.Sleep(time.Duration(rc.cfg.CancelUs) * time.Microsecond)
@@ -950,6 +994,15 @@ func buildCases(c *ctx) []rCase {
 		rc.cfg.MetricsRuns = 3
 		add(rc)
 	}
+	// failures reported by a goroutine of the scenario at the very moment the body returns: the exported metric and
+	// the result still classify each iteration the same way
+	{
+		ru := rCase{cfg: rCfg{Name: "async-fail-users", Mode: "users", Conc: 4, MaxIter: 60000, MaxDurUs: 5000 * ms, Light: true},
+			build: func(func(api.RateFunction) api.RateFunction) (*api.Trigger, error) {
+				return users.Rate().New(users.Rate().Flags)
+			}, asyncFail: true}
+		add(ru)
+	}
 	// part of the body runs in a helper goroutine guarded by testing.CheckResults(t, done) and panics there
 	for _, mode := range []string{"users", "constant"} {
 		var rc rCase
@@ -1061,6 +1114,31 @@ stages:
   rate: 2/20ms
 `, 4, nil, []string{"", "", "", ""}, 5000*ms, 4, 140000)
 	}
+	// the caller cancels while the stage's trigger goroutine is in the middle of a rate evaluation: the stage's
+	// parameters stay in the environment until that goroutine is done
+	fileCase("file-cancel-while-evaluating", `scenario: scn
+limits:
+  max-duration: 5s
+  concurrency: 4
+  max-iterations: 0
+  ignore-dropped: true
+default:
+  mode: constant
+  distribution: none
+  jitter: 0
+stages:
+- duration: 300ms
+  rate: 2/20ms
+  parameters:
+    VERIF_STAGE: one
+    VERIF_A: a1
+- duration: 300ms
+  rate: 2/20ms
+  parameters:
+    VERIF_STAGE: two
+`, 2, []string{"VERIF_STAGE", "VERIF_A"}, []string{"VERIF_STAGE=one;VERIF_A=a1", "VERIF_STAGE=two"}, 5000*ms, 4, 2000)
+	cases[len(cases)-1].cfg.CancelAtEval = 4
+	cases[len(cases)-1].cfg.StallUs = 120 * ms
 	// max-duration equal to a stage boundary: triggering ends inside the 20 ms pause between two stages, the stage
 	// after the boundary (users: its workers start iterations at once) must not begin
 	for _, nxt := range []string{"  mode: users\n  concurrency: 4\n", "  rate: 4/10ms\n"} {
